@@ -23,7 +23,7 @@ RULE = ("corpus; every sequence of <= 3 (thorough 4) whole blocks over a pool of
         "spellings); every string of <= k tokens over { } \" , = NL \\ @a a SP behind 6 block prefixes (k=4 quick, 5 thorough); "
         "arbitrary Unicode garbage incl. lone surrogates (python-only stream: must not raise); size-scaled families "
         "(1e3..1e5 lines of blank/comment/value text, brace nesting 1e4, 2e4 blocks, unterminated blocks at EOF). For every "
-        "case the real parse_string AND write_string are run; compared with the model of the whole pipeline: the parsed "
+        "case the real parse_string AND write_string (default format and three other BibtexFormat settings incl. auto) are run; compared with the model of the whole pipeline: the parsed "
         "library (all attributes, metadata) and the written text. "
         "Non-trivial = at least one block.")
 EXHAUSTIVE = {"quick": False, "thorough": False}
@@ -134,11 +134,27 @@ def request(case):
     return rq("parsewrite", t, chars_of=t)
 
 
+def _other_formats():
+    """write_string takes a BibtexFormat: "returns a string instead of raising" holds for every setting of it"""
+    from bibtexparser.writer import BibtexFormat
+    out = []
+    for col, tc, sep, ind in (("auto", True, "\n", "  "), (0, False, "", ""), (25, True, " \n", "\t")):
+        f = BibtexFormat()
+        f.value_column, f.trailing_comma, f.block_separator, f.indent = col, tc, sep, ind
+        out.append(f)
+    return out
+
+
 def _pipeline(text):
-    """the real parse_string + write_string; returns (library, written text)"""
+    """the real parse_string + write_string; returns (library, written text). The library is also written with three
+    non-default formats (result only required to be a str)"""
     import bibtexparser
     lib = bibtexparser.parse_string(text)
     out = bibtexparser.write_string(lib)
+    for f in _other_formats():
+        o = bibtexparser.write_string(lib, bibtex_format=f)
+        if not isinstance(o, str):
+            raise TypeError("write_string returned %r" % type(o).__name__)
     return lib, out
 
 
@@ -151,6 +167,9 @@ def impl(case):
     out = bibtexparser.write_string(lib)
     if not isinstance(out, str):
         return "(raise NotAString)"
+    for f in _other_formats():                      # any exception becomes (raise X) in the runner
+        if not isinstance(bibtexparser.write_string(lib, bibtex_format=f), str):
+            return "(raise NotAString)"
     return enc([Sym("ok"), sig, out])
 
 
